@@ -1206,7 +1206,7 @@ Print Assumptions C04_no_panic_quirks.
 
 (* "NO PUBLIC FUNCTION PANICS", FUNCTION BY FUNCTION (Proofs/C04_Table.v).  C04_Table.table has one row per entry of the
    regenerated inventory of the 167 `pub fn`s of the five crates: (crate, name, kind, claim, name of the pinned theorem).
-   C04_Table.claim i is the statement on the Gallina models that decides the rows carrying claim i (36 claims: the
+   C04_Table.claim i is the statement on the Gallina models that decides the rows carrying claim i (37 claims: the
    theorems of this file and of C03 / C06 / C09 / C13 / C14 / C15 / C17 / C19 / C20, plus new ones for the views,
    make_relative, the file-path conversions, Origin::new_opaque, uts46::verify_dns_length).  Kinds: KTheorem (no panic under
    the stated well-formedness premise), KExact (panics exactly in a stated class: iff), KOutside (no panic outside a
@@ -1217,7 +1217,8 @@ Print Assumptions C04_no_panic_quirks.
      (2) every claim holds, hence the claim of every row;
      (3) exactly the KByType / KDocumented / KHarness rows carry the trivial claim;
      (4) no KByType function has a panic macro of its own in the regenerated panic-site inventory (two listed exceptions);
-     (5) the census: 76 KTheorem, 19 KExact, 17 KOutside, 49 KByType, 2 KDocumented, 4 KHarness. *)
+     (5) the census: 76 KTheorem, 20 KExact (Url::check_invariants since task c04fin2: C04_check_invariants), 17 KOutside,
+         48 KByType, 2 KDocumented, 4 KHarness. *)
 Theorem C04_no_panic_inventory :
   map C04_Table.row_key C04_Table.table = T_C04_API
   /\ ((forall i, C04_Table.claim i) /\ Forall (fun r => C04_Table.claim (C04_Table.r_claim r)) C04_Table.table)
@@ -1227,8 +1228,8 @@ Theorem C04_no_panic_inventory :
                        || negb (C04_Table.has_panic_macro (C04_Table.r_name r))
                        || existsb (String.eqb (C04_Table.r_name r)) C04_Table.bytype_exceptions) C04_Table.table = true
   /\ (length C04_Table.table = 167%nat /\ C04_Table.count_kind C04_Table.KTheorem = 76%nat
-      /\ C04_Table.count_kind C04_Table.KExact = 19%nat /\ C04_Table.count_kind C04_Table.KOutside = 17%nat
-      /\ C04_Table.count_kind C04_Table.KByType = 49%nat /\ C04_Table.count_kind C04_Table.KDocumented = 2%nat
+      /\ C04_Table.count_kind C04_Table.KExact = 20%nat /\ C04_Table.count_kind C04_Table.KOutside = 17%nat
+      /\ C04_Table.count_kind C04_Table.KByType = 48%nat /\ C04_Table.count_kind C04_Table.KDocumented = 2%nat
       /\ C04_Table.count_kind C04_Table.KHarness = 4%nat).
 Proof.
   exact (conj C04_Table.table_complete (conj (conj C04_Table.claims_hold C04_Table.table_sound)
@@ -1243,8 +1244,8 @@ Check C04_no_panic_inventory :
                        || negb (C04_Table.has_panic_macro (C04_Table.r_name r))
                        || existsb (String.eqb (C04_Table.r_name r)) C04_Table.bytype_exceptions) C04_Table.table = true
   /\ (length C04_Table.table = 167%nat /\ C04_Table.count_kind C04_Table.KTheorem = 76%nat
-      /\ C04_Table.count_kind C04_Table.KExact = 19%nat /\ C04_Table.count_kind C04_Table.KOutside = 17%nat
-      /\ C04_Table.count_kind C04_Table.KByType = 49%nat /\ C04_Table.count_kind C04_Table.KDocumented = 2%nat
+      /\ C04_Table.count_kind C04_Table.KExact = 20%nat /\ C04_Table.count_kind C04_Table.KOutside = 17%nat
+      /\ C04_Table.count_kind C04_Table.KByType = 48%nat /\ C04_Table.count_kind C04_Table.KDocumented = 2%nat
       /\ C04_Table.count_kind C04_Table.KHarness = 4%nat).
 Print Assumptions C04_no_panic_inventory.
 
@@ -1649,3 +1650,186 @@ From RU Require Proofs.C05_FinEx.
 (* the hypotheses of C04_reached_premises_all have an instance, and a history through a quirks host setter exists in it *)
 Example C04_reached_all_inhabited : C05_FinEx.fin_example_stmt.
 Proof. exact C05_FinEx.fin_example. Qed.
+
+(* ================================================================== task c04fin2 *)
+From RU Require Proofs.C04_Quad Proofs.C04_CheckInv Proofs.C04_Reach3 Proofs.C04_Reach3Ex Proofs.C02_Reach Proofs.C02_Reach3
+  Proofs.C02_SetHostCanon Proofs.C03_AuthEnd Proofs.C05_Parser Proofs.C05_Alphabet Proofs.C03_ReachFullEx.
+
+(* finding F-C04-6 as a lower bound for EVERY n (induction: the k-th push("a") on file:/// runs the file fix-up of
+   parse_path on a path of 2k + 2 bytes): C04_6_quadratic_statement in full *)
+Theorem C04_6_quadratic : C04_6_quadratic_statement.
+Proof. exact C04_Quad.f_c04_6_all_n. Qed.
+Check C04_6_quadratic : forall n, N.of_nat n * N.of_nat n <= C04_CostPath.pushes_cost STFile 7 C04_CostPath.s_file_root n.
+Print Assumptions C04_6_quadratic.
+
+(* finding F-C04-9 as a lower bound by induction.  The family mime_distinct of C04_9_quadratic_statement writes its counter
+   with at most 10 decimal digits (digits_rev with fuel 10): beyond n = 10^10 the names repeat and are rejected by
+   contains(), so C04_9_quadratic_statement as written (ALL n) is not what the finding says and stays a Definition
+   (no witness against it is computable).  Proved: (1) the statement for every n <= 10^10, with the input length
+   <= 14 n + 3 (so cost >= |input|^2 / 400 or so on that range); (2) for EVERY n on the family mime_distinct_u whose
+   counter has as many digits as needed (n digits of fuel; the two families agree, e.g. at n = 12). *)
+Theorem C04_9_quadratic_partial :
+  (forall n, N.of_nat n <= 10000000000 ->
+     N.of_nat n * (N.of_nat n - 1) <= 2 * C04_CostMime.mime_parse_cost (C04_CostMime.mime_distinct n))
+  /\ (forall n, nlen (C04_CostMime.mime_distinct n) <= 14 * N.of_nat n + 3)
+  /\ (forall n, N.of_nat n * (N.of_nat n - 1) <= 2 * C04_CostMime.mime_parse_cost (C04_Quad.mime_distinct_u n))
+  /\ C04_Quad.mime_distinct_u 12 = C04_CostMime.mime_distinct 12.
+Proof.
+  exact (conj C04_Quad.f_c04_9_upto (conj C04_Quad.mime_distinct_len (conj C04_Quad.f_c04_9_all_n C04_Quad.mime_distinct_u_12))).
+Qed.
+Check C04_9_quadratic_partial :
+  (forall n, N.of_nat n <= 10000000000 ->
+     N.of_nat n * (N.of_nat n - 1) <= 2 * C04_CostMime.mime_parse_cost (C04_CostMime.mime_distinct n))
+  /\ (forall n, nlen (C04_CostMime.mime_distinct n) <= 14 * N.of_nat n + 3)
+  /\ (forall n, N.of_nat n * (N.of_nat n - 1) <= 2 * C04_CostMime.mime_parse_cost (C04_Quad.mime_distinct_u n))
+  /\ C04_Quad.mime_distinct_u 12 = C04_CostMime.mime_distinct 12.
+Print Assumptions C04_9_quadratic_partial.
+
+(* Url::check_invariants (lib.rs:686-808), the self-check of the anchors.  Proofs/C04_CheckInv.v is a hand transcription
+   into a three-valued function (COk = Ok(()), CErr = Err(String): its assert! / assert_eq! are local Err-returning macros,
+   CPanic: byte_at out of range, str slice out of range, port_str.parse::<u16>().expect, Url::parse(..).expect); the outcome
+   of Url::parse(self.as_str()) is an argument.  On a record with wf_b and host_text_ok EVERY structural check (lines
+   713-789) passes - wf_b is that part of check_invariants - except the comparison of the text of an IP host with its
+   Display text (ip_text_ok, not recorded by wf_b: it gives Err, no panic).  So check_invariants panics EXACTLY when the
+   structural part passes and the re-parse fails; it returns Ok(()) on a fixpoint of re-parsing with ip_text_ok; outside
+   wf_b the structural part itself panics (empty serialization). *)
+Theorem C04_check_invariants :
+  (forall hd u other, wf_b u = true -> C06_Suffix.host_text_ok u -> (forall o, other = POk o -> wf_b o = true) ->
+     (C04_CheckInv.check_invariants hd u other = C04_CheckInv.CPanic
+      <-> (has_authority_b u && negb (C04_CheckInv.ip_text_ok hd u) = false /\ forall o, other <> POk o)))
+  /\ (forall hd u, wf_b u = true -> C06_Suffix.host_text_ok u -> C04_CheckInv.ip_text_ok hd u = true ->
+        C04_CheckInv.check_invariants hd u (POk u) = C04_CheckInv.COk)
+  /\ (forall hd, C04_CheckInv.check_invariants hd (mkUrl [] 1 1 1 1 HI_None None 1 None None) (PErr EmptyHost)
+                 = C04_CheckInv.CPanic).
+Proof.
+  exact (conj C04_CheckInv.check_invariants_panic_iff
+        (conj C04_CheckInv.check_invariants_ok C04_CheckInv.check_invariants_panics_outside_wf)).
+Qed.
+Check C04_check_invariants :
+  (forall hd u other, wf_b u = true -> C06_Suffix.host_text_ok u -> (forall o, other = POk o -> wf_b o = true) ->
+     (C04_CheckInv.check_invariants hd u other = C04_CheckInv.CPanic
+      <-> (has_authority_b u && negb (C04_CheckInv.ip_text_ok hd u) = false /\ forall o, other <> POk o)))
+  /\ (forall hd u, wf_b u = true -> C06_Suffix.host_text_ok u -> C04_CheckInv.ip_text_ok hd u = true ->
+        C04_CheckInv.check_invariants hd u (POk u) = C04_CheckInv.COk)
+  /\ (forall hd, C04_CheckInv.check_invariants hd (mkUrl [] 1 1 1 1 HI_None None 1 None None) (PErr EmptyHost)
+                 = C04_CheckInv.CPanic).
+Print Assumptions C04_check_invariants.
+
+(* the mutator theorems over C02's quantifier Reachable3 (parse and join of &str texts against any reached record, every
+   call of the 19 mutators outside C02's known_step2, query_pairs_mut sessions): the hand premises wf_b / wfh of
+   C04_no_panic_setters / _setters2 / _quirks are discharged by C03_reachability_full (hypotheses on the host functions as
+   there; C03_reachability_full_model discharges them for the host model under IdnaOK).  The accessors and Position
+   slicing of a reached record are C03_accessors_reachable.  NEW with respect to the wf_b theorems: Url::origin NEVER
+   panics on a reached record (the class tuple_no_host_b of C04_origin_panic_iff is not reached: invariant HE), and
+   Url::check_invariants panics exactly when its structural part passes and the re-parse fails - a reached record that is
+   a fixpoint of re-parsing (C02: every record of ReachC4, C02_reach_partial4) with ip_text_ok gives Ok(()).  The two exact
+   classes of the mutators (PathSegmentsMut::new's assertion, F-C04-1) stay as iff: psm_assert_fails is not excluded by
+   inv03.  dbg = configuration of the history, dbg' = configuration of the call. *)
+Theorem C04_no_panic_reachable3 : forall hp hpo hd, C03_ReachParts.HostWf hp hpo hd -> C02_SetHostCanon.host_nonempty hp hpo ->
+  C03_AuthEnd.IpWf hd -> C05_Parser.HostOK hp hpo hd -> C05_Alphabet.IpOKv hd ->
+  forall dbg u, C02_Reach3.Reachable3 dbg hp hpo hd u ->
+  (wf_b u = true /\ C06_Main.wfh u /\ C04_Origin.tuple_no_host_b u = false)
+  /\ forall dbg',
+  ((forall f, exists u', Setters.set_fragment dbg' u f = Some u')
+   /\ (forall q, C06_Main.str_arg_ok q -> exists u', Setters.set_query dbg' u q = Some u')
+   /\ (forall p, C06_Main.port_arg_ok p -> exists r, Setters.set_port dbg' u p = Some r)
+   /\ (forall pw, exists r, Setters.set_password dbg' u pw = Some r)
+   /\ (forall un, exists r, Setters.set_username dbg' u un = Some r)
+   /\ (forall s, exists r, Setters.set_scheme dbg' u s = Some r))
+  /\ ((forall p, exists u', Setters.set_path dbg' u p = Some u')
+      /\ (forall ops, Setters.path_segments_session dbg' u ops = None <-> dbg' = true /\ C04_SetPath.psm_assert_fails u = true)
+      /\ (forall h, Setters.set_host dbg' hp hpo hd u h = None <-> dbg' = true /\ h = None /\ C04_SetHost.known_c04_1 u = true)
+      /\ (forall h, exists r, Setters.set_ip_host dbg' hd u h = Some r)
+      /\ (forall h op, exists u', Setters.set_host_internal dbg' hd u h op = Some u'))
+  /\ ((forall v, exists r, Setters.q_set_protocol dbg' u v = Some r)
+      /\ (forall v, exists r, Setters.q_set_username dbg' u v = Some r)
+      /\ (forall v, exists r, Setters.q_set_password dbg' u v = Some r)
+      /\ (forall v, exists r, Setters.q_set_host dbg' hp hpo hd u v = Some r)
+      /\ (forall v, exists r, Setters.q_set_hostname dbg' hp hpo hd u v = Some r)
+      /\ (forall v, exists r, Setters.q_set_port dbg' u v = Some r)
+      /\ (forall v, exists u', Setters.q_set_pathname dbg' u v = Some u')
+      /\ (forall v, usv_list v -> exists u', Setters.q_set_search dbg' u v = Some u')
+      /\ (forall v, exists u', Setters.q_set_hash dbg' u v = Some u'))
+  /\ (forall c, Origin.url_origin dbg' hp hpo hd c u <> Origin.OPanic /\ Origin.url_origin dbg' hp hpo hd c u <> Origin.OFuel)
+  /\ (C04_CheckInv.check_invariants hd u (C02_Reach.reparse dbg' hp hpo hd u) = C04_CheckInv.CPanic
+      <-> (has_authority_b u && negb (C04_CheckInv.ip_text_ok hd u) = false
+           /\ forall o, C02_Reach.reparse dbg' hp hpo hd u <> POk o))
+  /\ (C02_Reach.Fixpoint_of_reparse dbg' hp hpo hd u -> C04_CheckInv.ip_text_ok hd u = true ->
+      C04_CheckInv.check_invariants hd u (C02_Reach.reparse dbg' hp hpo hd u) = C04_CheckInv.COk).
+Proof.
+  intros hp hpo hd H1 H2 H3 H4 H5 dbg u R.
+  exact (conj (C04_Reach3.reach3_premises hp hpo hd H1 H2 H3 H4 H5 dbg u R)
+              (C04_Reach3.reach3_no_panic hp hpo hd H1 H2 H3 H4 H5 dbg u R)).
+Qed.
+Check C04_no_panic_reachable3 : forall hp hpo hd, C03_ReachParts.HostWf hp hpo hd -> C02_SetHostCanon.host_nonempty hp hpo ->
+  C03_AuthEnd.IpWf hd -> C05_Parser.HostOK hp hpo hd -> C05_Alphabet.IpOKv hd ->
+  forall dbg u, C02_Reach3.Reachable3 dbg hp hpo hd u ->
+  (wf_b u = true /\ C06_Main.wfh u /\ C04_Origin.tuple_no_host_b u = false)
+  /\ forall dbg',
+  ((forall f, exists u', Setters.set_fragment dbg' u f = Some u')
+   /\ (forall q, C06_Main.str_arg_ok q -> exists u', Setters.set_query dbg' u q = Some u')
+   /\ (forall p, C06_Main.port_arg_ok p -> exists r, Setters.set_port dbg' u p = Some r)
+   /\ (forall pw, exists r, Setters.set_password dbg' u pw = Some r)
+   /\ (forall un, exists r, Setters.set_username dbg' u un = Some r)
+   /\ (forall s, exists r, Setters.set_scheme dbg' u s = Some r))
+  /\ ((forall p, exists u', Setters.set_path dbg' u p = Some u')
+      /\ (forall ops, Setters.path_segments_session dbg' u ops = None <-> dbg' = true /\ C04_SetPath.psm_assert_fails u = true)
+      /\ (forall h, Setters.set_host dbg' hp hpo hd u h = None <-> dbg' = true /\ h = None /\ C04_SetHost.known_c04_1 u = true)
+      /\ (forall h, exists r, Setters.set_ip_host dbg' hd u h = Some r)
+      /\ (forall h op, exists u', Setters.set_host_internal dbg' hd u h op = Some u'))
+  /\ ((forall v, exists r, Setters.q_set_protocol dbg' u v = Some r)
+      /\ (forall v, exists r, Setters.q_set_username dbg' u v = Some r)
+      /\ (forall v, exists r, Setters.q_set_password dbg' u v = Some r)
+      /\ (forall v, exists r, Setters.q_set_host dbg' hp hpo hd u v = Some r)
+      /\ (forall v, exists r, Setters.q_set_hostname dbg' hp hpo hd u v = Some r)
+      /\ (forall v, exists r, Setters.q_set_port dbg' u v = Some r)
+      /\ (forall v, exists u', Setters.q_set_pathname dbg' u v = Some u')
+      /\ (forall v, usv_list v -> exists u', Setters.q_set_search dbg' u v = Some u')
+      /\ (forall v, exists u', Setters.q_set_hash dbg' u v = Some u'))
+  /\ (forall c, Origin.url_origin dbg' hp hpo hd c u <> Origin.OPanic /\ Origin.url_origin dbg' hp hpo hd c u <> Origin.OFuel)
+  /\ (C04_CheckInv.check_invariants hd u (C02_Reach.reparse dbg' hp hpo hd u) = C04_CheckInv.CPanic
+      <-> (has_authority_b u && negb (C04_CheckInv.ip_text_ok hd u) = false
+           /\ forall o, C02_Reach.reparse dbg' hp hpo hd u <> POk o))
+  /\ (C02_Reach.Fixpoint_of_reparse dbg' hp hpo hd u -> C04_CheckInv.ip_text_ok hd u = true ->
+      C04_CheckInv.check_invariants hd u (C02_Reach.reparse dbg' hp hpo hd u) = C04_CheckInv.COk).
+Print Assumptions C04_no_panic_reachable3.
+
+(* non-vacuity: host functions meeting the five hypotheses (C03_ReachFullEx.ex3_full_hyps); "http://u:p@h:81/a?q#f" is reached
+   by Url::parse, "http://u:p@h:81/x%20y?q#f" by set_path("/x y") on it; check_invariants computes to Ok(()) on both *)
+Example C04_reachable3_inhabited :
+  (C03_ReachParts.HostWf C03_ReachKnown.ex_hp3 C02_AuthMain.ex_hp C03_ReachEx.ex_hd2
+   /\ C02_SetHostCanon.host_nonempty C03_ReachKnown.ex_hp3 C02_AuthMain.ex_hp /\ C03_AuthEnd.IpWf C03_ReachEx.ex_hd2
+   /\ C05_Parser.HostOK C03_ReachKnown.ex_hp3 C02_AuthMain.ex_hp C03_ReachEx.ex_hd2 /\ C05_Alphabet.IpOKv C03_ReachEx.ex_hd2)
+  /\ C04_Reach3Ex.reach3_ci_example_stmt.
+Proof. exact (conj C03_ReachFullEx.ex3_full_hyps C04_Reach3Ex.reach3_ci_example). Qed.
+
+(* the Punycode DECODER's main loop (Proofs/C04_CostPunyDec.v): the cost twin computes Punycode.dec_loop; L code units with m
+   insertions already collected cost at most L (1 + m + L) + 1 steps (one per code unit, plus one per collected insertion
+   at every decoded delta - the decode side of finding F-C04-10 for the public, uncapped functions); under the cap of
+   2000 code units that uts46 applies before decoding: at most 2001 steps per code unit.  Not counted: the final
+   sort_by_key (O(m log m) in Rust) and the Decode iterator (one step per output character). *)
+From RU Require Proofs.C04_CostPunyDec.
+Theorem C04_cost_punycode_decoder :
+  (forall dbg it input mid p w k i len cp bias ins,
+     fst (C04_CostPunyDec.dec_loop_c dbg it input mid p w k i len cp bias ins)
+     = Punycode.dec_loop dbg it input mid p w k i len cp bias ins)
+  /\ (forall dbg it input mid p w k i len cp bias ins,
+        snd (C04_CostPunyDec.dec_loop_c dbg it input mid p w k i len cp bias ins)
+        <= N.of_nat (length input) * (1 + N.of_nat (length ins) + N.of_nat (length input)) + 1)
+  /\ (forall dbg it input len0, (length input <= 2000)%nat ->
+        snd (C04_CostPunyDec.dec_loop_c dbg it input false 0 1 Punycode.BASE 0 len0 Punycode.INITIAL_N Punycode.INITIAL_BIAS [])
+        <= 2001 * N.of_nat (length input) + 1).
+Proof.
+  exact (conj C04_CostPunyDec.dec_loop_c_fst (conj C04_CostPunyDec.dec_loop_c_le C04_CostPunyDec.dec_loop_c_capped)).
+Qed.
+Check C04_cost_punycode_decoder :
+  (forall dbg it input mid p w k i len cp bias ins,
+     fst (C04_CostPunyDec.dec_loop_c dbg it input mid p w k i len cp bias ins)
+     = Punycode.dec_loop dbg it input mid p w k i len cp bias ins)
+  /\ (forall dbg it input mid p w k i len cp bias ins,
+        snd (C04_CostPunyDec.dec_loop_c dbg it input mid p w k i len cp bias ins)
+        <= N.of_nat (length input) * (1 + N.of_nat (length ins) + N.of_nat (length input)) + 1)
+  /\ (forall dbg it input len0, (length input <= 2000)%nat ->
+        snd (C04_CostPunyDec.dec_loop_c dbg it input false 0 1 Punycode.BASE 0 len0 Punycode.INITIAL_N Punycode.INITIAL_BIAS [])
+        <= 2001 * N.of_nat (length input) + 1).
+Print Assumptions C04_cost_punycode_decoder.
